@@ -503,6 +503,9 @@ def judge_c05(spec, hist, refs):
             _, res, content, names, expect, leaked, fired, writes = out
             planned = bool(op.get("plan"))
             stats["stream_faults_fired"] += len(fired)
+            for w in fired:
+                cat = "stream_fault_at_" + ("open" if w == "open" else "close" if w == "close" else "write_call" if w.startswith("write#") else "byte_limit")
+                stats[cat] = stats.get(cat, 0) + 1
             sid = op["sol"]
             if leaked:
                 add("I7", i, op, {"kind": "handle-left-open", "count": leaked})
